@@ -30,7 +30,7 @@ CONFIG = dict(
                  "the result of an empty request after Terminate is not specified by the property and is not judged",
                  "Available() is judged only before Terminate (capacity minus held)",
                  "time stamps of different goroutines come from Go's monotonic clock"],
-    level_more='Unit TestC30TwoDeadlines: two callers blocked at once with deadlines 1.6-1.8 s apart and no release.',
+    level_more='Unit TestC30TwoDeadlines: two callers blocked at once with deadlines 1.6-1.8 s apart and no release. Practically never timeouts include MaxInt64 and 290 years; scenario kind over_release.',
     units=[
         dict(test="TestC30Sequential", quick=3000, thorough=160000, shards=16, shrinktime="2s"),
         dict(test="TestC30Timed", quick=200, thorough=6400, shards=16, shrinktime="1s"),
